@@ -1651,6 +1651,65 @@ def _is_read_in(name: str, nodes: Iterable[ast.AST]) -> bool:
     return any(True for node in nodes for _ in core.walk(node, ast.Name(id=name)))
 
 
+def _is_read_after_loop(names: Collection[str], loop: ast.AST, root: ast.AST) -> bool:
+    """Is any of names read after loop in the same scope, or elsewhere in a loop around it?
+
+    A for loop leaves its variables behind, a comprehension does not: a loop can only become a
+    comprehension when nothing depends on the values its variables are left with. A later loop or
+    comprehension over the same variable assigns it before its own body reads it."""
+
+    def start(node):
+        return (node.lineno, node.col_offset)
+
+    def end(node):
+        return (node.end_lineno, node.end_col_offset)
+
+    def contains(outer, inner):
+        return outer is not inner and start(outer) <= start(inner) and end(inner) <= end(outer)
+
+    names = set(names)
+    scope_types = (ast.FunctionDef, ast.AsyncFunctionDef, ast.ClassDef)
+    scopes = [node for node in core.walk(root, scope_types) if contains(node, loop)]
+    scope = max(scopes, key=start, default=root)
+    surrounding_loops = [
+        node for node in core.walk(scope, (ast.For, ast.AsyncFor, ast.While)) if contains(node, loop)
+    ]
+
+    reassigned = set()
+    for node in core.walk(scope, (ast.For, ast.AsyncFor)):
+        if start(node) >= end(loop) and names & _names_in(node.target):
+            reassigned.update(
+                name
+                for child in node.body
+                for name in core.walk(child, ast.Name)
+                if name.id in _names_in(node.target)
+            )
+    comprehension_types = (ast.ListComp, ast.SetComp, ast.GeneratorExp, ast.DictComp)
+    for node in core.walk(scope, comprehension_types):
+        targets = _names_in(*(comprehension.target for comprehension in node.generators))
+        if start(node) >= end(loop) and names & targets:
+            first_iter = set(core.walk(node.generators[0].iter, ast.Name))
+            reassigned.update(
+                name
+                for name in core.walk(node, ast.Name)
+                if name.id in targets and name not in first_iter
+            )
+
+    reads = set(core.walk(scope, ast.Name(ctx=ast.Load)))
+    reads.update(node.target for node in core.walk(scope, ast.AugAssign(target=ast.Name)))
+    for node in reads:
+        if node.id not in names or node in reassigned or contains(loop, node):
+            continue
+        if start(node) >= end(loop) or any(contains(other, node) for other in surrounding_loops):
+            return True
+
+    return False
+
+
+def _names_in(*nodes: ast.AST) -> Collection[str]:
+    return {name.id for node in nodes for name in core.walk(node, ast.Name)}
+
+
 @processing.fix
 def replace_for_loops_with_dict_comp(source: str) -> str:
     assign_template = ast.Assign(
@@ -1693,6 +1752,9 @@ def replace_for_loops_with_dict_comp(source: str) -> str:
         # The comprehension is evaluated before target is assigned, while the loop sees what it has
         # collected so far: nothing in the loop may mention target.
         if _is_read_in(target, [body_node.targets[0].slice, body_node.value, *generators]):
+            continue
+
+        if _is_read_after_loop(_names_in(*(comp.target for comp in generators)), n2, root):
             continue
 
         comp = ast.DictComp(
@@ -1769,6 +1831,9 @@ def replace_for_loops_with_set_list_comp(source: str) -> str:
         else:
             continue
         if _is_read_in(target, evaluated):
+            continue
+
+        if _is_read_after_loop(_names_in(*(comp.target for comp in generators)), n2, root):
             continue
 
         if template_match := core.match_template(body_node, target_alter_template):
@@ -1872,6 +1937,13 @@ def replace_nested_loops_with_set_list_comp(source: str) -> str:
 
         if m := core.match_template(node.body, leaf_template):
             call_node = node.body[-1]
+
+            # Neither the loop variables nor the temporary container exist after the rewrite.
+            bound_names = _names_in(*(comp.target for comp in generators))
+            if len(node.body) == 2:
+                bound_names |= {m.container.id}
+            if _is_read_after_loop(bound_names, outermost_for, root):
+                continue
 
             try:
                 new_loop_variable_name = next(unused_variable_name_iterator)
@@ -3122,9 +3194,10 @@ def replace_setcomp_add_with_union(source: str) -> str:
     replace = """
     {{variable}} = {{something}} | {{{something_else}} for {{target}} in {{iterable}}}
     """
+    root = core.parse(source)
     find = core.compile_template(find, something=(ast.SetComp, ast.Set, ast.BinOp(op=ast.BitOr)))
     for before, after, template_match in processing.find_replace(
-        source, find, replace, yield_match=True
+        source, find, replace, yield_match=True, root=root
     ):
         # The folded expression is evaluated before variable is assigned: it may not mention it.
         if _mentions_code_of(
@@ -3133,6 +3206,10 @@ def replace_setcomp_add_with_union(source: str) -> str:
             template_match.iterable,
             template_match.something_else,
         ):
+            continue
+
+        loop = next(node for node in core.walk(root, ast.For) if node.target is template_match.target)
+        if _is_read_after_loop(_names_in(loop.target), loop, root):
             continue
 
         if isinstance(template_match.root, ast.BinOp):
@@ -3150,7 +3227,7 @@ def replace_setcomp_add_with_union(source: str) -> str:
     """
     find = core.compile_template(find, something=(ast.SetComp, ast.Set, ast.BinOp(op=ast.BitOr)))
     for before, after, template_match in processing.find_replace(
-        source, find, replace, yield_match=True
+        source, find, replace, yield_match=True, root=root
     ):
         # The folded expression is evaluated before variable is assigned: it may not mention it.
         if _mentions_code_of(template_match.variable, template_match.something_else):
@@ -3173,9 +3250,10 @@ def replace_listcomp_append_with_plus(source: str) -> str:
     replace = """
     {{variable}} = {{something}} + [{{something_else}} for {{target}} in {{iterable}}]
     """
+    root = core.parse(source)
     find = core.compile_template(find, something=(ast.ListComp, ast.List, ast.BinOp(op=ast.Add)))
     for before, after, template_match in processing.find_replace(
-        source, find, replace, yield_match=True
+        source, find, replace, yield_match=True, root=root
     ):
         # The folded expression is evaluated before variable is assigned: it may not mention it.
         if _mentions_code_of(
@@ -3184,6 +3262,10 @@ def replace_listcomp_append_with_plus(source: str) -> str:
             template_match.iterable,
             template_match.something_else,
         ):
+            continue
+
+        loop = next(node for node in core.walk(root, ast.For) if node.target is template_match.target)
+        if _is_read_after_loop(_names_in(loop.target), loop, root):
             continue
 
         if isinstance(template_match.root, ast.BinOp):
@@ -3201,7 +3283,7 @@ def replace_listcomp_append_with_plus(source: str) -> str:
     """
     find = core.compile_template(find, something=(ast.ListComp, ast.List, ast.BinOp(op=ast.Add)))
     for before, after, template_match in processing.find_replace(
-        source, find, replace, yield_match=True
+        source, find, replace, yield_match=True, root=root
     ):
         # The folded expression is evaluated before variable is assigned: it may not mention it.
         if _mentions_code_of(template_match.variable, template_match.something_else):
